@@ -89,6 +89,8 @@ pub struct RunState {
     pub emit_logs: bool,
     /// The runner's CLI options of this run were parsed from an argument vector.
     pub cli_from_argv: bool,
+    /// The crate's CLI rejected an argument vector that gives runner options after a sub-command.
+    pub cli_rejected: Option<String>,
     /// Log at `WARN`/`ERROR` instead of `INFO` (runs whose subscriber filters out `INFO`).
     pub log_loud: bool,
     /// Lines logged outside of any span from inside callbacks.
@@ -210,6 +212,23 @@ pub const STATIC_MSGS: [&str; 8] = [
 ];
 
 fn throw(kind: PanicKind, token: u64) -> ! {
+    // every 5th panic is raised on a helper thread of the callback (a blocking call moved off the
+    // executor, a scoped worker) and carried over by `join()`: still the callback's panic
+    if token % 5 == 2 {
+        HELPER_THREAD_PANICS.fetch_add(1, std::sync::atomic::Ordering::SeqCst);
+        let res = std::thread::spawn(move || throw_here(kind, token)).join();
+        match res {
+            Err(payload) => std::panic::resume_unwind(payload),
+            Ok(never) => never,
+        }
+    }
+    throw_here(kind, token)
+}
+
+/// Panics raised on a helper thread so far (process-wide).
+pub static HELPER_THREAD_PANICS: std::sync::atomic::AtomicU64 = std::sync::atomic::AtomicU64::new(0);
+
+fn throw_here(kind: PanicKind, token: u64) -> ! {
     match kind {
         PanicKind::String => std::panic::panic_any(format!("boom#{token}#")),
         PanicKind::Str => std::panic::panic_any(STATIC_MSGS[(token % 8) as usize]),
@@ -278,8 +297,25 @@ impl Drop for Gate {
 }
 
 #[cfg(feature = "tracing")]
+thread_local! {
+    /// Called before every line a callback logs (the tracing workload lets a sibling run make progress
+    /// there, so that its lines get in between this run's).
+    static LOG_HOOK: RefCell<Option<Box<dyn FnMut()>>> = const { RefCell::new(None) };
+}
+
+#[cfg(feature = "tracing")]
+pub fn set_log_hook(f: Option<Box<dyn FnMut()>>) {
+    LOG_HOOK.with(|h| *h.borrow_mut() = f);
+}
+
+#[cfg(feature = "tracing")]
 fn emit_logs(idx: usize, n: u16) {
     for _ in 0..n {
+        let hook = LOG_HOOK.with(|h| h.borrow_mut().take());
+        if let Some(mut f) = hook {
+            f();
+            LOG_HOOK.with(|h| *h.borrow_mut() = Some(f));
+        }
         let id = with_rs(|rs| {
             if !rs.emit_logs {
                 return None;
